@@ -182,7 +182,7 @@ func c17ZoneOne(c *core.Ctx, k *core.Case) {
 	}
 }
 
-var c17Locations = []string{"UTC", "America/New_York", "Europe/London", "Europe/Berlin", "Australia/Lord_Howe", "Atlantic/Azores", "Asia/Kolkata", "Pacific/Chatham", "America/St_Johns", "Pacific/Kiritimati", "Asia/Kathmandu", "America/Sao_Paulo", "Pacific/Marquesas", "Australia/Adelaide"}
+var c17Locations = []string{"UTC", "America/New_York", "Europe/London", "Europe/Berlin", "Australia/Lord_Howe", "Atlantic/Azores", "Asia/Kolkata", "Pacific/Chatham", "America/St_Johns", "Pacific/Kiritimati", "Asia/Kathmandu", "America/Sao_Paulo", "Pacific/Marquesas", "Australia/Adelaide", "Antarctica/Troll"}
 
 func c17Loc(i int) *time.Location {
 	n := len(c17Locations)
